@@ -2,9 +2,6 @@ package rapid
 
 // L-KERNEL / C03: integer kernels respect their range on every bitstream.
 
-
-
-
 func H_C03_uintRange() {
 	min, max := nondetU64("min"), nondetU64("max")
 	assume(min <= max)
